@@ -87,6 +87,11 @@ between(T min, T sup)
 {
   Expects(min < sup);
 
+  // `std::uniform_real_distribution` requires a representable `sup - min`:
+  // a wider interval is halved (an exact operation for such endpoints).
+  if (!std::isfinite(sup - min))
+    return 2 * between(min / 2, sup / 2);
+
   std::uniform_real_distribution<T> d(min, sup);
   const T ret(d(engine));
 
